@@ -40,8 +40,8 @@ func defaultWeights() map[string]int {
 }
 
 func defaultProfile() *Profile {
-	return &Profile{MinBlocks: 6, MaxBlocks: 24, MaxTxs: 6, W: defaultWeights(), PFault: 20, PEvidence: 8,
-		PAbsent: 10, PNoProposer: 5, MaxVals: 5, Users: 3, SmallWindows: true, EarlyQuiet: true, OneGenesisUnbond: true,
+	return &Profile{MinBlocks: 6, MaxBlocks: 24, MaxTxs: 6, W: defaultWeights(), PFault: 12, PEvidence: 5,
+		PAbsent: 6, PNoProposer: 5, MaxVals: 5, Users: 3, SmallWindows: true, EarlyQuiet: true, OneGenesisUnbond: true,
 		ContractGasCap: 1_000_000}
 }
 
@@ -78,6 +78,42 @@ type GenSource struct {
 
 func draw[T any](t *rapid.T, g *rapid.Generator[T], label string) T { return g.Draw(t, label) }
 
+// unif draws an (almost exactly) uniform value in [0,n) from fair bits. rapid's integer
+// generators are deliberately biased towards small values and range ends, which is what we
+// want for amounts but not for probabilities and menu choices. All-zero bits (what shrinking
+// converges to) give 0.
+var bitsGen = map[int]*rapid.Generator[[]bool]{}
+
+func unif(t *rapid.T, n int, label string) int {
+	if n <= 1 {
+		return 0
+	}
+	nb := bitsLen(n-1) + 4
+	g, ok := bitsGen[nb]
+	if !ok {
+		g = rapid.SliceOfN(rapid.Bool(), nb, nb)
+		bitsGen[nb] = g
+	}
+	v := 0
+	for _, b := range g.Draw(t, label) {
+		v <<= 1
+		if b {
+			v |= 1
+		}
+	}
+	return v % n
+}
+
+func bitsLen(x int) int {
+	n := 0
+	for x > 0 {
+		n++
+		x >>= 1
+	}
+	return n
+}
+
+// pct is true with probability p percent; shrinks to false.
 func pct(t *rapid.T, p int, label string) bool {
 	if p <= 0 {
 		return false
@@ -85,11 +121,11 @@ func pct(t *rapid.T, p int, label string) bool {
 	if p >= 100 {
 		return true
 	}
-	return rapid.IntRange(0, 99).Draw(t, label) < p
+	return unif(t, 1000, label) >= 1000-10*p
 }
 
 func pick[T any](t *rapid.T, xs []T, label string) T {
-	return xs[rapid.IntRange(0, len(xs)-1).Draw(t, label)]
+	return xs[unif(t, len(xs), label)]
 }
 
 func weighted(t *rapid.T, w map[string]int, label string) string {
@@ -102,7 +138,7 @@ func weighted(t *rapid.T, w map[string]int, label string) string {
 		}
 	}
 	sort.Strings(ks)
-	x := rapid.IntRange(0, tot-1).Draw(t, label)
+	x := unif(t, tot, label)
 	for _, k := range ks {
 		if x < w[k] {
 			return k
@@ -115,7 +151,7 @@ func weighted(t *rapid.T, w map[string]int, label string) string {
 func NewGenSource(t *rapid.T, p *Profile) *GenSource {
 	s := &GenSource{t: t, P: p}
 	s.g = s.genGenesis()
-	s.nBlocks = rapid.IntRange(p.MinBlocks, p.MaxBlocks).Draw(t, "nBlocks")
+	s.nBlocks = p.MinBlocks + unif(t, p.MaxBlocks-p.MinBlocks+1, "nBlocks")
 	return s
 }
 
@@ -128,7 +164,7 @@ func (s *GenSource) genParams(nVals int, minValPower int64) *Params {
 	p.MinValidatorStake = rigo(uint64(minValPower)).Dec()
 	lim := s.P.Limiter
 	if lim == 0 {
-		lim = rapid.IntRange(1, 2).Draw(t, "limiter")
+		lim = 1 + unif(t, 2, "limiter")
 	}
 	if lim == 2 {
 		p.MaxUpdatableStakeRatio = int64(pick(t, []int{33, 50, 90}, "updRatio"))
@@ -147,20 +183,20 @@ func (s *GenSource) genParams(nVals int, minValPower int64) *Params {
 	p.SlashRatio = int64(pick(t, []int{1, 10, 33, 50, 99, 100}, "slashRatio"))
 	if s.P.SmallWindows && pct(t, 70, "smallWindow") {
 		p.SignedBlocksWindow = int64(rapid.IntRange(3, 12).Draw(t, "window"))
-		p.MinSignedBlocks = int64(rapid.IntRange(1, int(p.SignedBlocksWindow)).Draw(t, "minSigned"))
+		p.MinSignedBlocks = int64(rapid.IntRange(1, int(p.SignedBlocksWindow+1)/2).Draw(t, "minSigned"))
 	}
 	return p
 }
 
 func (s *GenSource) genGenesis() *Genesis {
 	t := s.t
-	nVals := rapid.IntRange(1, s.P.MaxVals).Draw(t, "nVals")
+	nVals := 1 + unif(t, s.P.MaxVals, "nVals")
 	minValPower := int64(rapid.IntRange(1, 5).Draw(t, "minValPower"))
 	g := &Genesis{ChainID: "verif-chain"}
 	for i := 0; i < nVals; i++ {
 		name := fmt.Sprintf("V%d", i)
 		s.vals = append(s.vals, actorNamed(name))
-		pw := minValPower + int64(pick(t, []int{0, 0, 1, 2, 5, 10, 40}, "valPowerExtra"))
+		pw := minValPower + int64(pick(t, []int{0, 1, 9, 9, 50, 100, 1000}, "valPowerExtra"))
 		g.Validators = append(g.Validators, GenVal{Actor: name, Power: pw})
 		g.Balances = append(g.Balances, GenBal{Actor: name, Balance: rigo(uint64(rapid.IntRange(50, 2000).Draw(t, "valBal"))).Dec()})
 	}
@@ -202,18 +238,18 @@ func (s *GenSource) StartBlock(w *World) *Block {
 			b.Evidence = append(b.Evidence, s.genEvidence(w, h))
 		}
 	}
-	s.nTx = rapid.IntRange(0, s.P.MaxTxs).Draw(t, "nTxs")
+	s.nTx = unif(t, s.P.MaxTxs+1, "nTxs")
 	return b
 }
 
 func (s *GenSource) genEvidence(w *World, h int64) Evid {
 	t := s.t
-	kind := rapid.IntRange(0, 9).Draw(t, "evKind")
+	kind := unif(t, 10, "evKind")
 	eh := h - 1 - int64(rapid.IntRange(0, 2).Draw(t, "evAge"))
 	if eh < 1 {
 		eh = 1
 	}
-	ev := Evid{Type: int32(rapid.IntRange(1, 2).Draw(t, "evType")), Height: eh}
+	ev := Evid{Type: int32((1 + unif(t, 2, "evType"))), Height: eh}
 	set := setEntries(w.TM.At(eh))
 	switch {
 	case kind <= 6 && len(set) > 0:
@@ -265,7 +301,7 @@ func (s *GenSource) amountFor(w *World, from *Actor, label string) *uint256.Int 
 	t := s.t
 	bal := w.acct(from.Addr).Bal
 	fee := new(uint256.Int).Mul(u256(w.Params.MinTrxGas), w.Params.gasPrice())
-	switch rapid.IntRange(0, 13).Draw(t, label) {
+	switch unif(t, 14, label) {
 	case 0:
 		return u256(0)
 	case 1:
@@ -333,6 +369,13 @@ func (s *GenSource) genTx(w *World, b *Block) ([]byte, string) {
 	if len(w.Contracts) == 0 {
 		wts["call"] = 0
 	}
+	if wts["vote"] > 0 {
+		if len(w.Open) == 0 {
+			wts["vote"] = 1
+		} else {
+			wts["vote"] *= 2
+		}
+	}
 	op := weighted(t, wts, "op")
 	sp := &txSpec{amount: u256(0), gas: w.Params.MinTrxGas}
 
@@ -345,13 +388,13 @@ func (s *GenSource) genTx(w *World, b *Block) ([]byte, string) {
 	case "transfer":
 		sp.from = pick(t, s.all, "from")
 		sp.typ = ctypes.TRX_TRANSFER
-		switch rapid.IntRange(0, 9).Draw(t, "toKind") {
+		switch unif(t, 10, "toKind") {
 		case 0:
 			sp.to = sp.from.Addr
 		case 1:
 			sp.to = make([]byte, 20)
 		case 2:
-			sp.to = actorNamed(fmt.Sprintf("fresh%d", rapid.IntRange(0, 3).Draw(t, "fresh"))).Addr
+			sp.to = actorNamed(fmt.Sprintf("fresh%d", unif(t, 4, "fresh"))).Addr
 		case 3:
 			if ks := sortedKeys(w.Contracts); len(ks) > 0 {
 				sp.to = unhx(pick(t, ks, "toContract"))
@@ -377,7 +420,7 @@ func (s *GenSource) genTx(w *World, b *Block) ([]byte, string) {
 		sp.typ = ctypes.TRX_STAKING
 		sp.from = pick(t, s.all, "from")
 		dk := sortedKeys(w.Delegs)
-		switch k := rapid.IntRange(0, 9).Draw(t, "stakeTo"); {
+		switch k := unif(t, 10, "stakeTo"); {
 		case k <= 2:
 			sp.to = sp.from.Addr
 		case k <= 8 && len(dk) > 0:
@@ -386,8 +429,11 @@ func (s *GenSource) genTx(w *World, b *Block) ([]byte, string) {
 			sp.to = pick(t, s.all, "toAny").Addr
 		}
 		units := uint64(pick(t, []int{1, 1, 2, 3, 5, 10, 50}, "units"))
+		if _, isDeleg := w.Delegs[ak(sp.to)]; !isDeleg && string(sp.to) == string(sp.from.Addr) && pct(t, 85, "enoughSelfStake") {
+			units += uint64(w.Params.minValidatorPower())
+		}
 		sp.amount = rigo(units)
-		switch rapid.IntRange(0, 19).Draw(t, "stakeAmtFault") {
+		switch unif(t, 20, "stakeAmtFault") {
 		case 0:
 			sp.amount.Add(sp.amount, u256(1))
 		case 1:
@@ -407,7 +453,7 @@ func (s *GenSource) genTx(w *World, b *Block) ([]byte, string) {
 		sp.typ = ctypes.TRX_UNSTAKING
 		ls := s.liveStakes(w)
 		var id []byte
-		switch k := rapid.IntRange(0, 9).Draw(t, "unstakeKind"); {
+		switch k := unif(t, 10, "unstakeKind"); {
 		case k <= 6 && len(ls) > 0: // owner
 			st := pick(t, ls, "stake")
 			sp.from = s.actorByAddr(st.Owner)
@@ -419,7 +465,7 @@ func (s *GenSource) genTx(w *World, b *Block) ([]byte, string) {
 		default:
 			sp.from = pick(t, s.all, "from")
 			sp.to = pick(t, s.all, "toAny").Addr
-			id = txHashOf([]byte(fmt.Sprintf("nostake%d", rapid.IntRange(0, 3).Draw(t, "bogus"))))
+			id = txHashOf([]byte(fmt.Sprintf("nostake%d", unif(t, 4, "bogus"))))
 			if uk := sortedKeys(w.Unbonding); len(uk) > 0 && pct(t, 50, "unbondingId") {
 				u := w.Unbonding[pick(t, uk, "unb")]
 				id, sp.to = u.TxHash, u.To
@@ -443,7 +489,7 @@ func (s *GenSource) genTx(w *World, b *Block) ([]byte, string) {
 			cum = rw.Cum.Clone()
 		}
 		var req *uint256.Int
-		switch rapid.IntRange(0, 5).Draw(t, "wdKind") {
+		switch unif(t, 6, "wdKind") {
 		case 0:
 			req = u256(0)
 		case 1:
@@ -469,10 +515,10 @@ func (s *GenSource) genTx(w *World, b *Block) ([]byte, string) {
 			sp.from = pick(t, s.all, "from")
 		}
 		p := w.Params
-		start := h + int64(pick(t, []int{1, 1, 1, 2, 3, 0, -1}, "startOff"))
-		period := int64(rapid.IntRange(int(p.MinVotingPeriodBlocks), int(p.MaxVotingPeriodBlocks)).Draw(t, "period"))
+		start := h + int64(pick(t, []int{1, 1, 1, 1, 1, 2, 2, 3, 0, -1}, "startOff"))
+		period := p.MinVotingPeriodBlocks + int64(unif(t, int(p.MaxVotingPeriodBlocks-p.MinVotingPeriodBlocks)+1, "period"))
 		apply := start + period + p.LazyApplyingBlocks + int64(pick(t, []int{0, 0, 0, 1, 2}, "applyOff"))
-		switch rapid.IntRange(0, 19).Draw(t, "propFault") {
+		switch unif(t, 40, "propFault") {
 		case 0:
 			period = p.MinVotingPeriodBlocks - 1
 		case 1:
@@ -486,7 +532,7 @@ func (s *GenSource) genTx(w *World, b *Block) ([]byte, string) {
 		case 5:
 			period = math.MaxInt64 - start + 1
 		}
-		nopt := rapid.IntRange(1, 3).Draw(t, "nOptions")
+		nopt := 1 + unif(t, 3, "nOptions")
 		if pct(t, 4, "noOptions") {
 			nopt = 0
 		}
@@ -520,7 +566,7 @@ func (s *GenSource) genTx(w *World, b *Block) ([]byte, string) {
 			} else {
 				sp.from = pick(t, s.all, "from")
 			}
-			choice = int32(rapid.IntRange(0, len(pr.Options)-1).Draw(t, "choice"))
+			choice = int32(unif(t, len(pr.Options), "choice"))
 			if pct(t, 6, "badChoice") {
 				choice = int32(pick(t, []int{-1, len(pr.Options), math.MaxInt32, math.MinInt32}, "badChoiceVal"))
 			}
@@ -626,7 +672,7 @@ func (s *GenSource) excludeUnstake(w *World, sp *txSpec, id []byte, h int64) boo
 
 func (s *GenSource) genOption(w *World) []byte {
 	t := s.t
-	switch rapid.IntRange(0, 11).Draw(t, "optKind") {
+	switch unif(t, 40, "optKind") {
 	case 0:
 		return []byte("not json")
 	case 1:
@@ -637,9 +683,9 @@ func (s *GenSource) genOption(w *World) []byte {
 		return []byte(`{"maxValidatorCnt":3}`) // number instead of string: rejected by the decoder
 	}
 	o := &Params{}
-	n := rapid.IntRange(1, 3).Draw(t, "nFields")
+	n := 1 + unif(t, 3, "nFields")
 	for i := 0; i < n; i++ {
-		switch rapid.IntRange(0, 11).Draw(t, "field") {
+		switch unif(t, 12, "field") {
 		case 0:
 			o.MaxValidatorCnt = int64(rapid.IntRange(1, 6).Draw(t, "oMaxVal"))
 		case 1:
@@ -787,7 +833,7 @@ func (s *GenSource) genRaw(w *World) []byte {
 	t := s.t
 	if len(s.sentAll) > 0 && pct(t, 60, "mutateValid") {
 		src := append([]byte(nil), pick(t, s.sentAll, "rawSrc")...)
-		switch rapid.IntRange(0, 2).Draw(t, "rawMut") {
+		switch unif(t, 3, "rawMut") {
 		case 0:
 			if len(src) > 1 {
 				src = src[:rapid.IntRange(0, len(src)-1).Draw(t, "trunc")]
